@@ -15,6 +15,7 @@ import (
 // quiescent), so their order is a function of the scheduler's decisions.
 type Event struct {
 	Seq      int       `json:"seq"`
+	Ref      int       `json:"ref,omitempty"` // write-ack: Seq of the write event it answers
 	T        int64     `json:"t"` // simulated ns since the epoch of the run
 	Gen      int       `json:"g"`
 	Kind     string    `json:"k"`
@@ -37,6 +38,7 @@ const (
 	EvAPICall   = "api-call"
 	EvAPIRet    = "api-ret"
 	EvWrite     = "write"
+	EvWriteAck  = "write-ack" // the engine got the answer of a durable write (only with PolicySpec.WriteLatUs > 0)
 	EvRead      = "read"
 	EvPlugEnter = "plug-enter"
 	EvPlugExit  = "plug-exit"
